@@ -183,5 +183,27 @@ def run(ctx):
         if site and site[0]:
             extra = " [last array operation at %s:%s in %s]" % (site[0].split("/src/")[-1], site[1], site[2])
         ctx.add(Finding("C06", "C06.AXI." + kind, "ConvContract.__call__", "%s (%d of the swept configurations fail)%s" % (what, len(items), extra), pm.path(LAYERS_MOD), node.lineno, cfg, kind))
+    # "for every parameter value": the parameters are the array leaves that receive a gradient.  The invariant filter bank
+    # must not be one of them -- an optimiser step would move it off the invariant subspace and no identity above would
+    # survive.  Decided by the taint run of C09 (symbols passing through jax.lax.stop_gradient during the forward pass are
+    # renamed; no output element may depend on an un-renamed bank symbol), on this property's own entry points.
+    from .c09 import taint_worker
+
+    tspecs = [dict(cls="ConvContract", D=2, input=[((0, 0), 1), ((1, 0), 1)], output=[((1, 0), 1), ((0, 0), 1)], use_bias="auto"),
+             dict(cls="ConvContract", D=2, input=[((0, 1), 1), ((1, 0), 2)], output=[((0, 0), 1), ((1, 1), 1)], use_bias="mean"),
+             dict(cls="ConvContract", D=3, input=[((0, 0), 1), ((1, 0), 1)], output=[((1, 0), 1), ((0, 0), 1)], use_bias=False),
+             dict(cls="ConvContract", D=2, input=[((0, 0), 2), ((1, 0), 2)], output=[((0, 0), 2), ((1, 0), 2)], use_bias=False, fast=True)]
+    tby = {}
+    for job, r in ctx.pairs(taint_worker, [(ctx.repo, s_) for s_ in tspecs], chunk=1):
+        ev.obligation("bank-not-a-parameter", not r["problems"], tuple(str(v) for v in sorted(r["cfg"].items())))
+        for kind, what, site in r["problems"]:
+            tby.setdefault(kind, []).append((what, site, r["cfg"]))
+    for kind, items in sorted(tby.items()):
+        what, site, cfg = items[0]
+        node = pm.func(LAYERS_MOD, "ConvContract.individual_convolve")
+        path_, line_ = pm.path(LAYERS_MOD), node.lineno
+        if site and site[0]:
+            path_, line_ = site[0], site[1]
+        ctx.add(Finding("C06", "C06.TAINT." + kind, "ConvContract.individual_convolve", "%s: the bank is then a trainable parameter, and the layer is equivariant only for the parameter values that keep it invariant (%d of the swept configurations fail)" % (what, len(items)), path_, line_, cfg, "bank-" + kind))
     ev.instances("C06.AXI.obligations", ev.obligations, floor=100 if ctx.tier == "quick" else 400)
     ev.exhaustive = False
